@@ -1,15 +1,399 @@
 import JF.Model.Kinematics
 import JF.Lemmas.PyArith
+import JF.Lemmas.Kinematics
+import JF.Props.C14
 /-!
 # C07 — Particles move continuously at recorded velocity; events only hand velocity over
-Exact reading (`Ops.rat`) of the kinematic core.
+
+Exact reading (`α = ℚ`, `Ops.rat`) of the kinematic core `JF/Model/Kinematics.lean`.
+The theorems cover
+* the time slice `timeSlice` (`BasicEventHandler._time_slice_unit`), which every event handler uses for every
+  unit it sends out (point masses and composite objects alike), and
+* the point-mass chain machine `Kin.step` / `Kin.run` (one tree level): what each kind of committed event does
+  to the global state.
+The composite-object (two-level) half of the statement — all moving point masses of one composite object share
+the velocity of the object — is the subject of C12 and is not restated here.
+Identities are list indices; charges are not part of the kinematic state, no event of the machine can touch them.
+
+Any dimension (the common length of the lists), any number of units, any box lengths `L_d > 0` (`PosBox L`).
+Vocabulary (`JF/Lemmas/Kinematics.lean`): `Cong l a b` is `∃ k : ℤ, b = a + k * l`; `CongVec L P Q` the same
+coordinate by coordinate (`congVec_iff`); `InBox L P` is `0 ≤ P_d < L_d` for all `d` (`inBox_iff`);
+`advance P V dt` is `P + V * dt`; `val t` (C14) is the rational number a `Time` stands for.
 -/
 namespace JF.C07
-open JF JF.Kin
+open JF JF.Kin JF.C14
+
+/-! ## 1. the time slice -/
+
+/-- the new coordinate is `p + v * dt` up to an integer number of box lengths -/
+theorem sliceCoord_congr (L p v dt : ℚ) (hL : 0 < L) :
+    ∃ k : ℤ, sliceCoord Ops.rat L p v dt = p + v * dt + k * L :=
+  sliceCoord_cong L p v dt hL
+
+/-- the new coordinate lies in `[0, L)` -/
+theorem sliceCoord_mem (L p v dt : ℚ) (hL : 0 < L) :
+    0 ≤ sliceCoord Ops.rat L p v dt ∧ sliceCoord Ops.rat L p v dt < L :=
+  sliceCoord_inBox L p v dt hL
+
+example : (0:ℚ) < 4 := by norm_num
+
+/-- all coordinates: as many as the box has, coordinate `d` is `P_d + V_d * dt` up to an integer number of `L_d`,
+and lies in `[0, L_d)` -/
+theorem sliceVec_spec (L P V : List ℚ) (dt : ℚ) (hL : PosBox L) (hP : P.length = L.length)
+    (hV : V.length = L.length) :
+    (sliceVec Ops.rat L P V dt).length = L.length ∧
+    ∀ d (hd : d < L.length) (hd' : d < (sliceVec Ops.rat L P V dt).length),
+      (∃ k : ℤ, (sliceVec Ops.rat L P V dt)[d] = P[d] + V[d] * dt + k * L[d]) ∧
+      0 ≤ (sliceVec Ops.rat L P V dt)[d] ∧ (sliceVec Ops.rat L P V dt)[d] < L[d] := by
+  have hlen := sliceVec_length L P V dt hP hV
+  refine ⟨hlen, ?_⟩
+  intro d hd hd'
+  obtain ⟨-, -, hc⟩ := (congVec_iff _ _ _).mp (sliceVec_cong L P V dt hL hP hV)
+  obtain ⟨-, hb⟩ := (inBox_iff _ _).mp (sliceVec_inBox L P V dt hL hP hV)
+  refine ⟨?_, hb d hd hd'⟩
+  have := hc d hd (by rw [advance_length P V dt (by omega)]; omega) hd'
+  simpa [advance] using this
+
+example : PosBox Ex.L0 ∧ [(1:ℚ), 1].length = Ex.L0.length := ⟨Ex.posBox, rfl⟩
+
+/-- A moving unit after `_time_slice_unit`: the time stamp is the event time, the velocity is unchanged, the
+position lies in the box and is the old position advanced by `velocity * (event time − old time stamp)`, modulo
+the box. -/
+theorem timeSlice_moving (L : List ℚ) (t : Time ℚ) (u : PUnit ℚ) (v : List ℚ) (s : Time ℚ) (hL : PosBox L)
+    (hw : WFU L.length u) (hv : u.vel = some v) (hs : u.ts = some s) :
+    (timeSlice Ops.rat L t u).ts = some t ∧ (timeSlice Ops.rat L t u).vel = some v ∧
+    InBox L (timeSlice Ops.rat L t u).pos ∧
+    CongVec L (advance u.pos v (val t - val s)) (timeSlice Ops.rat L t u).pos :=
+  ⟨by rw [timeSlice_of_moving L t u hv hs], by rw [timeSlice_vel, hv],
+    timeSlice_pos_inBox t hL hw hv hs, timeSlice_pos_cong t hL hw hv hs⟩
+
+example : WFU Ex.L0.length ⟨[1, 1], some [1, 0], some Ex.t0⟩ := by simp [WFU, Ex.L0]
+
+/-- the velocity is never changed by time-slicing (no hypothesis) -/
+theorem timeSlice_velocity (L : List ℚ) (t : Time ℚ) (u : PUnit ℚ) : (timeSlice Ops.rat L t u).vel = u.vel :=
+  timeSlice_vel L t u
 
 /-- a unit at rest is not touched by time-slicing -/
 theorem timeSlice_rest (L : List ℚ) (t : Time ℚ) (u : PUnit ℚ) (h : u.vel = none) :
-    timeSlice Ops.rat L t u = u := by
-  unfold timeSlice; rw [h]
+    timeSlice Ops.rat L t u = u :=
+  timeSlice_of_rest L t u h
+
+/-- Slicing does not leave the trajectory: for every time `τ`, the free flight from the sliced position and the
+new time stamp meets the free flight from the old position and the old time stamp, modulo the box.
+(Hence slicing twice, at `t` and then at `τ`, is congruent to slicing once at `τ`: `slice_twice`.) -/
+theorem slice_traj (L : List ℚ) (t : Time ℚ) (u : PUnit ℚ) (v : List ℚ) (s : Time ℚ) (hL : PosBox L)
+    (hw : WFU L.length u) (hv : u.vel = some v) (hs : u.ts = some s) (τ : ℚ) :
+    CongVec L (advance u.pos v (τ - val s)) (advance (timeSlice Ops.rat L t u).pos v (τ - val t)) := by
+  have h := advance_cong v (τ - val t) (timeSlice_pos_cong t hL hw hv hs) (hw.2.2 v hv)
+  rw [advance_advance _ _ _ _ (by rw [hw.1, hw.2.2 v hv])] at h
+  rwa [show val t - val s + (τ - val t) = τ - val s by ring] at h
+
+/-- slicing at `t` and then at `t'` gives a position congruent to slicing at `t'` directly -/
+theorem slice_twice (L : List ℚ) (t t' : Time ℚ) (u : PUnit ℚ) (v : List ℚ) (s : Time ℚ) (hL : PosBox L)
+    (hw : WFU L.length u) (hv : u.vel = some v) (hs : u.ts = some s) :
+    CongVec L (timeSlice Ops.rat L t' u).pos (timeSlice Ops.rat L t' (timeSlice Ops.rat L t u)).pos := by
+  obtain ⟨hts, hvel, -, -⟩ := timeSlice_moving L t u v s hL hw hv hs
+  have h1 := timeSlice_pos_cong t' hL hw hv hs
+  have h2 := timeSlice_pos_cong t' hL (timeSlice_wfu L t u hw) hvel hts
+  exact h1.symm.trans ((slice_traj L t u v s hL hw hv hs (val t')).trans h2)
+
+/-! ## 2. well-formedness is preserved -/
+
+/-- every event keeps the global state well-formed (positions and velocities have the dimension of the box,
+a unit has a velocity iff it has a time stamp) -/
+theorem step_WF (L : List ℚ) (us : List (PUnit ℚ)) (e : Ev ℚ) (h : WF L us) (he : EvWF L e) :
+    WF L (step Ops.rat L us e) :=
+  step_wf L us e h he
+
+example : WF Ex.L0 Ex.us0 ∧ EvWF Ex.L0 (.start Ex.t0 0 [1, 0]) := ⟨Ex.wf0, rfl⟩
+
+theorem run_WF (L : List ℚ) : ∀ (es : List (Ev ℚ)) (us : List (PUnit ℚ)), WF L us → (∀ e ∈ es, EvWF L e) →
+    WF L (run Ops.rat L us es)
+  | [], _, h, _ => h
+  | e :: es, us, h, he =>
+      run_WF L es _ (step_WF L us e h (he e (by simp))) (fun e' he' => he e' (by simp [he']))
+
+example : WF Ex.L0 Ex.us0 ∧ ∀ e ∈ Ex.evs, EvWF Ex.L0 e :=
+  ⟨Ex.wf0, by intro e he; simp [Ex.evs] at he; rcases he with rfl | rfl | rfl | rfl | rfl <;> simp [EvWF, Ex.L0]⟩
+
+/-! ## 3. the chain invariant -/
+
+/-- identities are list indices: no event creates or deletes a unit (no hypothesis) -/
+theorem step_card (L : List ℚ) (us : List (PUnit ℚ)) (e : Ev ℚ) : (step Ops.rat L us e).length = us.length :=
+  step_length L us e
+
+theorem run_card (L : List ℚ) : ∀ (es : List (Ev ℚ)) (us : List (PUnit ℚ)),
+    (run Ops.rat L us es).length = us.length
+  | [], _ => rfl
+  | e :: es, us => (run_card L es _).trans (step_card L us e)
+
+/-- The start-of-run event on a state at rest establishes the chain invariant: exactly one unit moves, with the
+squared speed of the start velocity and the time stamp of the event; everything is in the box. -/
+theorem start_chain (L : List ℚ) (us : List (PUnit ℚ)) (t : Time ℚ) (a : Nat) (v : List ℚ)
+    (hwf : WF L us) (hbox : ∀ u ∈ us, InBox L u.pos) (hadm : Adm L us (.start t a v)) :
+    Chain L (normSq v) t (step Ops.rat L us (.start t a v)) :=
+  (chain_iff _ _ _ _).mpr ⟨a, ChainI.of_start hwf hbox hadm.2.2 t a v hadm.1 hadm.2.1⟩
+
+example : WF Ex.L0 Ex.us0 ∧ (∀ u ∈ Ex.us0, InBox Ex.L0 u.pos) ∧ Adm Ex.L0 Ex.us0 (.start Ex.t0 0 [1, 0]) :=
+  ⟨Ex.wf0, Ex.inBox0, by decide, rfl, Ex.rest0⟩
+
+/-- Every admissible event keeps the chain invariant (`Chain`, five conjuncts: well-formed; every position in the
+box; `(us.filter isMoving).length = 1`; every velocity has squared norm `c`; the moving unit's time stamp is the
+time of the event). A second `start` is not admissible (it needs every unit at rest), so no case is excluded. -/
+theorem step_chain {L : List ℚ} {c : ℚ} {t : Time ℚ} {us : List (PUnit ℚ)} (hL : PosBox L)
+    (h : Chain L c t us) (e : Ev ℚ) (hadm : Adm L us e) : Chain L c e.time (step Ops.rat L us e) := by
+  obtain ⟨a, ha⟩ := (chain_iff _ _ _ _).mp h
+  rw [chain_iff]
+  cases e with
+  | start t' b v =>
+      obtain ⟨ua, w, hua, -, -, hw, -⟩ := ha.get
+      have := hadm.2.2 ua (List.mem_of_getElem? hua)
+      rw [hw] at this; cases this
+  | keep t' => exact ⟨a, ha.step_keep hL t'⟩
+  | snap t' d x => exact ⟨a, ha.step_snap hL t' d x hadm⟩
+  | lift t' b => exact ⟨b, ha.step_lift hL t' b hadm⟩
+  | endOfChain t' b v =>
+      obtain ⟨ua, w, hua, -, -, hw, hc, -⟩ := ha.get
+      have := hadm.2.2 ua (List.mem_of_getElem? hua) w hw
+      exact ⟨b, ha.step_endOfChain hL t' b v hadm.1 hadm.2.1 (this.trans hc)⟩
+
+/-- the chain state after the start event of the example, used by the examples below -/
+theorem Ex.chain1 : Chain Ex.L0 1 Ex.t0 (step Ops.rat Ex.L0 Ex.us0 (.start Ex.t0 0 [1, 0])) := by
+  have := start_chain Ex.L0 Ex.us0 Ex.t0 0 [1, 0] Ex.wf0 Ex.inBox0 ⟨by decide, rfl, Ex.rest0⟩
+  simpa [normSq] using this
+
+example : ∃ c t us, Chain Ex.L0 c t us ∧ Adm Ex.L0 us (.lift Ex.t3 1) ∧ Adm Ex.L0 us (.endOfChain Ex.t4 2 [0, 1]) ∧
+    Adm Ex.L0 us (.snap Ex.t2 0 0) :=
+  ⟨1, _, _, Ex.chain1, by simp [Adm, step_length, Ex.us0],
+    ⟨by simp [step_length, Ex.us0], rfl, fun u hu v0 hv0 => by rw [Ex.chain1.speed u hu v0 hv0]; norm_num [normSq]⟩,
+    by intro h; norm_num [Ex.L0]⟩
+
+/-- Chain invariant along every admissible run: after any admissible list of events the invariant holds with the
+same squared speed and the time of the last event. -/
+theorem run_chain {L : List ℚ} {c : ℚ} (hL : PosBox L) : ∀ (es : List (Ev ℚ)) (t : Time ℚ) (us : List (PUnit ℚ)),
+    Chain L c t us → AdmRun L us es → Chain L c (lastTime t es) (run Ops.rat L us es)
+  | [], _, _, h, _ => h
+  | e :: es, _, _, h, hadm => run_chain hL es e.time _ (step_chain hL h e hadm.1) hadm.2
+
+/-- From the start of the run on: a state at rest, in the box; the start event, then any admissible events.
+Exactly one unit moves, its squared speed is that of the start velocity, its time stamp is the time of the last
+event, every position is in the box, and the number of units is unchanged. -/
+theorem run_from_rest {L : List ℚ} (hL : PosBox L) (us : List (PUnit ℚ)) (t : Time ℚ) (a : Nat) (v : List ℚ)
+    (es : List (Ev ℚ)) (hwf : WF L us) (hbox : ∀ u ∈ us, InBox L u.pos)
+    (hadm : AdmRun L us (.start t a v :: es)) :
+    Chain L (normSq v) (lastTime t es) (run Ops.rat L us (.start t a v :: es)) ∧
+    (run Ops.rat L us (.start t a v :: es)).length = us.length :=
+  ⟨run_chain hL es t _ (start_chain L us t a v hwf hbox hadm.1) hadm.2, run_card L _ us⟩
+
+/-- non-vacuity: the five-event run of the example (start, sample, cell boundary, pair event, end of chain) is
+admissible -/
+theorem Ex.admRun : AdmRun Ex.L0 Ex.us0 Ex.evs := by
+  have hL := Ex.posBox
+  have h1 := Ex.chain1
+  have h2 := step_chain hL h1 (.keep Ex.t1) trivial
+  have a3 : Adm Ex.L0 (step Ops.rat Ex.L0 (step Ops.rat Ex.L0 Ex.us0 (.start Ex.t0 0 [1, 0])) (.keep Ex.t1))
+      (.snap Ex.t2 0 0) := by intro h; norm_num [Ex.L0]
+  have h3 := step_chain hL h2 (.snap Ex.t2 0 0) a3
+  have a4 : Adm Ex.L0 (step Ops.rat Ex.L0 (step Ops.rat Ex.L0 (step Ops.rat Ex.L0 Ex.us0 (.start Ex.t0 0 [1, 0]))
+      (.keep Ex.t1)) (.snap Ex.t2 0 0)) (.lift Ex.t3 1) := by simp [Adm, step_length, Ex.us0]
+  have h4 := step_chain hL h3 (.lift Ex.t3 1) a4
+  exact ⟨⟨by decide, rfl, Ex.rest0⟩, trivial, a3, a4,
+    ⟨by simp [step_length, Ex.us0], rfl, fun u hu v0 hv0 => by rw [h4.speed u hu v0 hv0]; norm_num [normSq]⟩, trivial⟩
+
+example : PosBox Ex.L0 ∧ WF Ex.L0 Ex.us0 ∧ (∀ u ∈ Ex.us0, InBox Ex.L0 u.pos) ∧ AdmRun Ex.L0 Ex.us0 Ex.evs :=
+  ⟨Ex.posBox, Ex.wf0, Ex.inBox0, Ex.admRun⟩
+
+/-- A unit that is in the box stays in the box, event by event (no chain invariant needed; a cell-boundary event
+must write a coordinate of the box). -/
+theorem step_inBox (L : List ℚ) (us : List (PUnit ℚ)) (e : Ev ℚ) (hL : PosBox L) (hwf : WF L us)
+    (hsnap : ∀ t d x, e = .snap t d x → ∀ h : d < L.length, 0 ≤ x ∧ x < L[d])
+    (i : Nat) (u u' : PUnit ℚ) (hu : us[i]? = some u) (hu' : (step Ops.rat L us e)[i]? = some u')
+    (hin : InBox L u.pos) : InBox L u'.pos := by
+  have hp := step_pos L us e i
+  rw [hu, hu'] at hp
+  simp only [Option.map_some, Option.some.injEq] at hp
+  rw [hp]
+  have hw := hwf u (List.mem_of_getElem? hu)
+  have hsl : ∀ t, InBox L (timeSlice Ops.rat L t u).pos := by
+    intro t
+    cases hv : u.vel with
+    | none => rw [timeSlice_of_rest L t u hv]; exact hin
+    | some v =>
+        cases hs : u.ts with
+        | none => have := hw.2.1; simp [hv, hs] at this
+        | some s => exact timeSlice_pos_inBox t hL hw hv hs
+  cases e with
+  | start t a v => exact hin
+  | keep t => exact hsl t
+  | lift t b => exact hsl t
+  | endOfChain t a v => exact hsl t
+  | snap t d x =>
+      simp only [posAfter]
+      split
+      · exact setCoord_inBox L _ d x (hsl t) (hsnap t d x rfl)
+      · exact hin
+
+example : PosBox Ex.L0 ∧ WF Ex.L0 Ex.us0 ∧ (∀ t d x, Ev.snap Ex.t2 0 (0:ℚ) = .snap t d x →
+    ∀ h : d < Ex.L0.length, 0 ≤ x ∧ x < Ex.L0[d]) ∧ ∃ u, Ex.us0[1]? = some u ∧ InBox Ex.L0 u.pos :=
+  ⟨Ex.posBox, Ex.wf0, by intro t d x h; cases h; intro _; norm_num [Ex.L0], _, rfl, Ex.inBox0 _ (by simp [Ex.us0])⟩
+
+/-! ## 4. continuity: no event moves a unit discontinuously; velocities are only handed over -/
+
+/-- No jump. For every event and every unit: a unit at rest has exactly the position it had; a moving unit has its
+previous position advanced by its previous velocity times (event time − its time stamp), modulo the box.
+`Smooth` asks of a start event that every unit is at rest, and of a cell-boundary event that the coordinate it
+writes is congruent modulo `L_d` to the time-sliced coordinate it overwrites (exact reading of the cell-boundary
+event); nothing of the other events. -/
+theorem no_jump (L : List ℚ) (us : List (PUnit ℚ)) (e : Ev ℚ) (hL : PosBox L) (hwf : WF L us)
+    (hsm : Smooth L us e) (i : Nat) (u u' : PUnit ℚ) (hu : us[i]? = some u)
+    (hu' : (step Ops.rat L us e)[i]? = some u') :
+    (u.vel = none → u'.pos = u.pos) ∧
+    (∀ v s, u.vel = some v → u.ts = some s → CongVec L (advance u.pos v (val e.time - val s)) u'.pos) := by
+  have hp := step_pos L us e i
+  rw [hu, hu'] at hp
+  simp only [Option.map_some, Option.some.injEq] at hp
+  rw [hp]
+  have hm := List.mem_of_getElem? hu
+  exact ⟨posAfter_of_rest L e u, fun v s hv hs => posAfter_cong hL (hwf u hm) hm hsm hv hs⟩
+
+/-- index reading of `no_jump` for a moving unit: coordinate `d` after the event is
+`pos_d + vel_d * (event time − time stamp) + k * L_d` for an integer `k` -/
+theorem no_jump_coord (L : List ℚ) (us : List (PUnit ℚ)) (e : Ev ℚ) (hL : PosBox L) (hwf : WF L us)
+    (hsm : Smooth L us e) (i : Nat) (u u' : PUnit ℚ) (hu : us[i]? = some u)
+    (hu' : (step Ops.rat L us e)[i]? = some u') (v : List ℚ) (s : Time ℚ) (hv : u.vel = some v)
+    (hs : u.ts = some s) (d : Nat) (hd : d < L.length) :
+    ∃ (h1 : d < u'.pos.length) (h2 : d < u.pos.length) (h3 : d < v.length) (k : ℤ),
+      u'.pos[d] = u.pos[d] + v[d] * (val e.time - val s) + k * L[d] := by
+  have hw := hwf u (List.mem_of_getElem? hu)
+  have h := (no_jump L us e hL hwf hsm i u u' hu hu').2 v s hv hs
+  obtain ⟨hl1, hl2, hc⟩ := (congVec_iff _ _ _).mp h
+  have h2 : d < u.pos.length := by rw [hw.1]; exact hd
+  have h3 : d < v.length := by rw [hw.2.2 v hv]; exact hd
+  refine ⟨by omega, h2, h3, ?_⟩
+  have := hc d hd (by omega) (by omega)
+  simpa [advance] using this
+
+/-- non-vacuity of `Smooth` for a cell-boundary event: in the example, unit 0 (at `x = 1` with velocity `1` since
+time `0`) is sliced at time `3` to `x = 4 mod 4 = 0`, and the event writes `0` -/
+example : Smooth Ex.L0 (step Ops.rat Ex.L0 Ex.us0 (.start Ex.t0 0 [1, 0])) (.snap Ex.t2 0 0) := by
+  intro u hu hmv h h'
+  have hus : step Ops.rat Ex.L0 Ex.us0 (.start Ex.t0 0 [1, 0]) =
+      [⟨[1, 1], some [1, 0], some Ex.t0⟩, ⟨[3, 2], none, none⟩, ⟨[0, 5/2], none, none⟩] := rfl
+  rw [hus] at hu
+  simp only [List.mem_cons, List.not_mem_nil, or_false] at hu
+  rcases hu with rfl | rfl | rfl
+  · refine Cong.of_eq ?_
+    simp only [timeSlice, sliceVec, List.getElem_cons_zero, Ex.L0]
+    rw [sliceCoord_eq _ _ _ _ (by norm_num)]
+    norm_num [Time.sub, Ex.t2, Ex.t0]
+  · simp [isMoving] at hmv
+  · simp [isMoving] at hmv
+
+/-- sampling, end of run, dumping, rejected events, cell-boundary events: every velocity and every time stamp's
+presence stay as they are; in particular every velocity is unchanged -/
+theorem keep_velocities (L : List ℚ) (us : List (PUnit ℚ)) (t : Time ℚ) :
+    (step Ops.rat L us (.keep t)).map (·.vel) = us.map (·.vel) := by
+  simp [step, timeSlice_vel]
+
+theorem snap_velocities (L : List ℚ) (us : List (PUnit ℚ)) (t : Time ℚ) (d : Nat) (x : ℚ) :
+    (step Ops.rat L us (.snap t d x)).map (·.vel) = us.map (·.vel) := by
+  simp only [step, List.map_map]
+  apply List.map_congr_left
+  intro u _
+  simp only [Function.comp]
+  split <;> simp [timeSlice_vel]
+
+/-- Accepted pair event: the velocity is handed over, not created or destroyed — the list (a fortiori the
+multiset) of the velocities present in the global state is the same before and after, namely the one velocity
+of the chain; it now sits at unit `b`, with the time stamp of the event (`step_chain`). -/
+theorem lift_velocities {L : List ℚ} {c : ℚ} {t : Time ℚ} {us : List (PUnit ℚ)} (hL : PosBox L)
+    (h : Chain L c t us) (t' : Time ℚ) (b : Nat) (hb : b < us.length) :
+    (step Ops.rat L us (.lift t' b)).filterMap (·.vel) = us.filterMap (·.vel) ∧
+    ∃ ub v, (step Ops.rat L us (.lift t' b))[b]? = some ub ∧ ub.vel = some v ∧ us.filterMap (·.vel) = [v] := by
+  obtain ⟨a, ha⟩ := (chain_iff _ _ _ _).mp h
+  have hb' := ha.step_lift hL t' b hb
+  obtain ⟨ua, v, hua, -, -, hv, -⟩ := ha.get
+  obtain ⟨ub, w, hub, -, -, hw, -⟩ := hb'.get
+  have hwv : w = v := by
+    have := ha.lift_vel hL t' b hb
+    rw [hub, hua] at this
+    simp only [Option.bind_some, hw, hv, Option.some.injEq] at this
+    exact this
+  subst hwv
+  exact ⟨by rw [hb'.vels_at hub hw, ha.vels_at hua hv], ub, w, hub, hw, ha.vels_at hua hv⟩
+
+example : ∃ c t us, PosBox Ex.L0 ∧ Chain Ex.L0 c t us ∧ 1 < us.length :=
+  ⟨1, _, _, Ex.posBox, Ex.chain1, by simp [step_length, Ex.us0]⟩
+
+/-! ## 5. committed times never decrease -/
+
+/-- a candidate computed from the moving unit's time stamp with a non-negative displacement is normalised and not
+before the last committed event (chain invariant + C14 `add_ge`): the hypothesis of `Leg` on new candidates -/
+theorem candidate_ge_last_commit {L : List ℚ} {c : ℚ} {t : Time ℚ} {us : List (PUnit ℚ)} (h : Chain L c t us)
+    (ht : Normalised t) (u : PUnit ℚ) (hu : u ∈ us) (s : Time ℚ) (hs : u.ts = some s) (d : ℚ) (hd : 0 ≤ d) :
+    Normalised (Time.add Ops.rat s d) ∧ Time.le t (Time.add Ops.rat s d) = true := by
+  have hmv : isMoving u = true := by
+    have := (h.wf u hu).2.1
+    simp [isMoving, this, hs]
+  have : s = t := by have := h.stamp u hu hmv; rw [hs] at this; exact Option.some.inj this
+  subst this
+  exact ⟨add_normalised s d ht, add_ge s d ht hd⟩
+
+example : ∃ c t us u s, Chain Ex.L0 c t us ∧ Normalised t ∧ u ∈ us ∧ u.ts = some s := by
+  refine ⟨1, Ex.t0, _, (⟨[1, 1], some [1, 0], some Ex.t0⟩ : PUnit ℚ), Ex.t0, Ex.chain1, ?_, ?_, rfl⟩
+  · exact ⟨⟨0, by simp [Ex.t0]⟩, by simp [Ex.t0], by simp [Ex.t0]⟩
+  · show _ ∈ ([⟨[1, 1], some [1, 0], some Ex.t0⟩, ⟨[3, 2], none, none⟩, ⟨[0, 5/2], none, none⟩] : List (PUnit ℚ))
+    exact List.mem_cons_self
+
+/-- Time order. For every run of the leg loop (`Legs`: each leg commits a minimal live candidate, removes any
+sub-multiset of the live candidates containing it, and adds normalised candidates that are not before it) that
+starts in a state where no live candidate lies before the current time: the committed times, preceded by the
+initial time, are sorted with respect to `Time.le` (`Time.__le__`), i.e. they never decrease; and `Time.le` is the
+order of the rational values (`C14.le_iff`), second statement. -/
+theorem committed_times_sorted (now : Time ℚ) (pending : List (Time ℚ)) (ts : List (Time ℚ))
+    (s' : Time ℚ × List (Time ℚ)) (hnow : Normalised now)
+    (hpend : ∀ p ∈ pending, Normalised p ∧ Time.le now p = true) (h : Legs (now, pending) ts s') :
+    List.Pairwise (fun a b => Time.le a b = true) (now :: ts) ∧
+    List.Pairwise (fun a b => val a ≤ val b) (now :: ts) := by
+  obtain ⟨h1, h2, -⟩ := h.sorted ⟨hnow, hpend⟩
+  have hp : List.Pairwise (fun a b => Time.le a b = true) (now :: ts) :=
+    List.Pairwise.cons (fun x hx => (h1 x hx).2) h2
+  refine ⟨hp, ?_⟩
+  have hn : ∀ x ∈ now :: ts, Normalised x := by
+    intro x hx
+    rcases List.mem_cons.mp hx with rfl | hx
+    · exact hnow
+    · exact (h1 x hx).1
+  exact hp.imp_of_mem (fun {a b} ha hb hab => (le_iff a b (hn a ha) (hn b hb)).mp hab)
+
+/-- non-vacuity: two legs. Live candidates `{1/2, 2, 1/2}` at time `0`; the first leg commits `1/2`, trashes it
+together with the candidate `2` and pushes `3/4`; the second leg commits the other `1/2` (a tie) and pushes
+nothing. -/
+example : ∃ s', Legs (⟨0, 0⟩, [⟨0, 1/2⟩, ⟨2, 0⟩, ⟨0, 1/2⟩]) [⟨0, 1/2⟩, ⟨0, 1/2⟩] s' ∧ Normalised (⟨0, 0⟩ : Time ℚ) ∧
+    ∀ p ∈ [(⟨0, 1/2⟩ : Time ℚ), ⟨2, 0⟩, ⟨0, 1/2⟩], Normalised p ∧ Time.le ⟨0, 0⟩ p = true := by
+  have n0 : Normalised (⟨0, 0⟩ : Time ℚ) := ⟨⟨0, by simp⟩, by norm_num, by norm_num⟩
+  have n1 : Normalised (⟨0, 1/2⟩ : Time ℚ) := ⟨⟨0, by simp⟩, by norm_num, by norm_num⟩
+  have n2 : Normalised (⟨2, 0⟩ : Time ℚ) := ⟨⟨2, by simp⟩, by norm_num, by norm_num⟩
+  have n3 : Normalised (⟨0, 3/4⟩ : Time ℚ) := ⟨⟨0, by simp⟩, by norm_num, by norm_num⟩
+  have l1 : Leg (⟨0, 0⟩, [⟨0, 1/2⟩, ⟨2, 0⟩, ⟨0, 1/2⟩]) (⟨0, 1/2⟩, [⟨0, 1/2⟩] ++ [⟨0, 3/4⟩]) := by
+    refine Leg.mk ⟨0, 0⟩ ⟨0, 1/2⟩ _ [⟨0, 1/2⟩, ⟨2, 0⟩] [⟨0, 1/2⟩] [⟨0, 3/4⟩] (by simp) ?_ (List.Perm.refl _) (by simp) ?_
+    · intro p hp
+      simp only [List.mem_cons, List.not_mem_nil, or_false] at hp
+      rcases hp with rfl | rfl | rfl <;> decide +kernel
+    · intro p hp
+      simp only [List.mem_cons, List.not_mem_nil, or_false] at hp
+      subst hp; exact ⟨n3, by decide +kernel⟩
+  have l2 : Leg (⟨0, 1/2⟩, [⟨0, 1/2⟩] ++ [⟨0, 3/4⟩]) (⟨0, 1/2⟩, [⟨0, 3/4⟩] ++ []) := by
+    refine Leg.mk ⟨0, 1/2⟩ ⟨0, 1/2⟩ _ [⟨0, 1/2⟩] [⟨0, 3/4⟩] [] (by simp) ?_ (List.Perm.refl _) (by simp) (by simp)
+    intro p hp
+    simp only [List.cons_append, List.nil_append, List.mem_cons, List.not_mem_nil, or_false] at hp
+    rcases hp with rfl | rfl <;> decide +kernel
+  refine ⟨_, Legs.cons l1 (Legs.cons l2 (Legs.nil _)), n0, ?_⟩
+  intro p hp
+  simp only [List.mem_cons, List.not_mem_nil, or_false] at hp
+  rcases hp with rfl | rfl | rfl
+  · exact ⟨n1, by decide +kernel⟩
+  · exact ⟨n2, by decide +kernel⟩
+  · exact ⟨n1, by decide +kernel⟩
 
 end JF.C07
